@@ -20,11 +20,16 @@ import luqum.elasticsearch.tree as ET
 
 
 # ------------------------------------------------------------------------------------------------ C07-M / C05-H
+def _fresh_str(s):
+    """an equal string that is not the same object as the builder's class constant (configuration read from a file, lower-cased, ...)"""
+    return "".join([s[:2], s[2:]])
+
+
 def kind_table():
     """F (exhaustive over node classes x default operator): _is_must / _is_should"""
     fails = []
     n = 0
-    for default in ("should", "must"):
+    for default in ("should", "must", _fresh_str("should"), _fresh_str("must")):
         b = EV.ElasticsearchQueryBuilder(default_operator=default)
         for cls in model.UNIVERSE:
             if cls is T.NoneItem:
@@ -46,7 +51,7 @@ def clash_table():
     fails = []
     n = 0
     classes = [c for c in model.UNIVERSE if c is not T.NoneItem]
-    for default in ("should", "must"):
+    for default in (_fresh_str("should"), _fresh_str("must")):
         b = EV.ElasticsearchQueryBuilder(default_operator=default)
 
         def m(c):
@@ -474,7 +479,8 @@ def _operand(kind, i, cx, top_cls, default="should"):
         v = fresh("v")
         leaf = SemLeaf(v, "p%d" % i)
         item = ET.EMust(items=[leaf]) if kind == "plus" else ET.EMustNot(items=[leaf])
-        return n, {id(n): item}, (v if kind == "plus" else z3.Not(v))
+        # translations arranged at both depths (the prefixed node and its operand), so that code looking through the prefix is decided
+        return n, {id(n): item, id(inner): leaf}, (v if kind == "plus" else z3.Not(v))
     if kind in ("and", "or"):
         a, b = T.Word("a%d" % i), T.Word("b%d" % i)
         cls = T.AndOperation if kind == "and" else T.OrOperation
@@ -585,7 +591,13 @@ def semantic_cases():
                         return [(key + "/one-clause", False)]
                     got = es_meaning(out[0].json)
                     cx.notes["replay_info"] = {"class": cname, "operands": list(kinds), "default": default}
-                    return [(key + "/meaning-of-the-generated-bool-clause-is-the-meaning-of-the-node", got == spec),
+                    extra_obls = []
+                    if cname in ("Plus", "Not", "Prohibit"):
+                        # the boolean operation tells required / prohibited operands by the KIND of their translation
+                        # (EBoolOperation.json): a + must give a must clause, a - / NOT a must_not clause, whatever is below
+                        want_cls = ET.EMust if cname == "Plus" else ET.EMustNot
+                        extra_obls.append((key + "/clause-kind-is-the-one-the-boolean-operation-sorts-on", type(out[0]) is want_cls))
+                    return extra_obls + [(key + "/meaning-of-the-generated-bool-clause-is-the-meaning-of-the-node", got == spec),
                             (key + "/no-operand-translated-twice-none-skipped", len({id(v) for v in visited}) == len(visited) and len(visited) >= len(ops) - sum(1 for k in kinds if k in ("and", "or") and getattr(T, {"and": "AndOperation", "or": "OrOperation"}[k]) is cls) and bool(visited))]
                 cases.append(core.Case("C05-S/%s/%s/%s" % (default, cname, "+".join(kinds)), run,
                                        functions=["luqum.elasticsearch.visitor.ElasticsearchQueryBuilder._binary_operation",
@@ -672,8 +684,11 @@ def visit_leaf_cases():
                 il, ih = SymBool(z3.Bool("include_low")), SymBool(z3.Bool("include_high"))
                 cx.register("include_low", il.t)
                 cx.register("include_high", ih.t)
-                low = T.Prohibit(T.Word(lo)) if neg else T.Word(lo)
-                node = T.Range(low, T.Word(hi), include_low=il, include_high=ih)
+                # bounds as the parser leaves them: blanks around TO live in the heads / tails of the bounds (and of the inner word of a
+                # negative bound)
+                wl = T.Word(lo, head=SymStr(name="lo_head"), tail=SymStr(name="lo_tail"))
+                low = T.Prohibit(wl, head=SymStr(name="neg_head"), tail=SymStr(name="neg_tail")) if neg else wl
+                node = T.Range(low, T.Word(hi, head=SymStr(name="hi_head"), tail=SymStr(name="hi_tail")), include_low=il, include_high=ih)
                 ctx0 = {}
                 if prefix is not None:
                     ctx0[b.CONTEXT_FIELD_PREFIX] = list(prefix)
